@@ -662,6 +662,12 @@ impl Running {
     /// Accept-side barrier: issue a command that is a no-op in the current state and wait until the
     /// accept thread has popped it and gone idle again. Returns the idle snapshot.
     pub fn accept_barrier(&self, paused: bool) -> Result<Snapshot, Waited> {
+        self.accept_barrier_at(paused).map(|x| x.0)
+    }
+
+    /// Like `accept_barrier`, also returning the log index of the idle snapshot: the log up to that index
+    /// is a consistent cut of everything the accept thread had done when it went idle.
+    pub fn accept_barrier_at(&self, paused: bool) -> Result<(Snapshot, usize), Waited> {
         let from = verif::log_len();
         let fut_done = if paused {
             block_on_timeout(self.handle.pause(), WATCHDOG).is_some()
@@ -670,15 +676,16 @@ impl Running {
         };
         let _ = fut_done;
         let kind = if paused { "pause" } else { "resume" };
-        let mut snap: Option<Snapshot> = None;
+        let mut snap: Option<(Snapshot, usize)> = None;
         let w = wait_log(
             |l| {
                 let mut seen_interest = false;
-                for r in &l[from.min(l.len())..] {
+                let base = from.min(l.len());
+                for (i, r) in l[base..].iter().enumerate() {
                     match &r.ev {
                         Ev::Interest { kind: k, .. } if *k == kind => seen_interest = true,
                         Ev::LoopIdle(s) if seen_interest => {
-                            snap = Some(s.clone());
+                            snap = Some((s.clone(), base + i));
                             return true;
                         }
                         _ => {}
@@ -788,6 +795,24 @@ impl Running {
             }
         }
         true
+    }
+}
+
+/// Run one throw-away server per runtime flavour so that process-wide lazily created resources
+/// (Tokio's global signal pipe, thread-locals, ...) exist before any baseline is taken.
+pub fn warm_up() {
+    for rt in [RtKind::Actix, RtKind::Tokio] {
+        let cfg = ServerCfg { workers: 1, limit: 4, listeners: vec![LKind::Tcp, LKind::Uds], rt, shutdown_timeout: 1, backlog: 16 };
+        let base = thread_count();
+        if let Ok(mut run) = start(&cfg, |_| {}) {
+            if let Ok(mut c) = Client::connect(&run.addrs[0], 0, b'F') {
+                let _ = c.poll_ack(Duration::from_millis(500));
+                c.close();
+            }
+            let _ = run.stop(false, Duration::from_secs(10));
+            let _ = run.join(Duration::from_secs(10));
+        }
+        wait_threads_gone(base, Duration::from_secs(10));
     }
 }
 
